@@ -1,2 +1,232 @@
+import DuneVerif.Model.C17
 import DuneVerif.Common.Proto
-def main : IO Unit := DV.runDriver fun _ => "bad-op"
+/-! line-protocol driver for C17 (see harness/cxx_c17.cc for the op lines)
+
+  cmp   <T> <style> <a> <b> <eps>                 six comparisons; numbers are exact dyadics `m:e` = m·2^e
+  cmpv  <T> std|fv <style> [a,..] [b,..] <eps>    vector overloads
+  round <T> <I> <style> <rstyle> <val> <eps>      trunc likewise
+  laws  …                                         law-only run on arbitrary bit patterns: the model is silent (`n/a`)
+  mf    <style> <a> <b> <eps>                     8-bit minifloat codes 0..255, operations round
+  mfr   <style> <rstyle> <val> <eps>              round/trunc in the minifloat format
+  defeps <T> <style>
+  pow <t> <te> <m> <p> | powf <T> <m:e> <p> | fact <t> <n> | binom <t> <n> <k> | sign <t|T> <x>
+  cls fv|cx|fvcx|un <fmt> [hex,..]
+
+`skip` is printed for inputs outside the domain on which the C++ computation is exact / defined (the harness
+uses the same predicate); anything unparsable is `bad-op`. -/
+open DV DV.C17
+
+def showB (b : Bool) : String := if b then "true" else "false"
+
+def parseStyle? : String → Option Style
+  | "relativeWeak" => some .relativeWeak
+  | "relativeStrong" => some .relativeStrong
+  | "absolute" => some .absolute
+  | _ => none
+
+def parseRStyle? : String → Option RStyle
+  | "towardZero" => some .towardZero
+  | "towardInf" => some .towardInf
+  | "downward" => some .downward
+  | "upward" => some .upward
+  | _ => none
+
+def parseIType? : String → Option IType
+  | "i32" => some int32
+  | "i64" => some int64
+  | "u32" => some uint32
+  | "u64" => some uint64
+  | _ => none
+
+/-- floating type: (mantissa bits of operands, mantissa bits of epsilon, exponent window, total precision) -/
+structure FT where
+  mb : Nat
+  me : Nat
+  ew : Int
+  prec : Nat
+
+def parseFT? : String → Option FT
+  | "f32" => some ⟨12, 12, 11, 24⟩
+  | "f64" => some ⟨26, 26, 26, 53⟩
+  | _ => none
+
+/-- operand domain: at most `mb` significant bits, all of them at positions in [-ew, ew) -/
+def okVal (ft : FT) (x : Dy) : Bool :=
+  let (m, e) := x.normal
+  let bl : Int := Dy.bitlen m.natAbs
+  m == 0 || (bl ≤ ft.mb && -ft.ew ≤ e && e + bl ≤ ft.ew)
+
+/-- epsilon domain: non-negative, at most `me` significant bits, exponent moderate -/
+def okEps (ft : FT) (x : Dy) : Bool :=
+  let (m, e) := x.normal
+  let bl : Int := Dy.bitlen m.natAbs
+  m == 0 || (m > 0 && bl ≤ ft.me && -60 ≤ e && e + bl ≤ 20)
+
+def parseDyList? (s : String) : Option (List Dy) :=
+  let cs := s.toList
+  if cs.length < 2 then none else
+  if cs.head? ≠ some '[' || cs.getLast? ≠ some ']' then none else
+  let inner := String.ofList ((cs.drop 1).dropLast)
+  if inner.isEmpty then some [] else (inner.splitOn ",").mapM Dy.parse?
+
+def parseHexList? (s : String) : Option (List Nat) :=
+  let cs := s.toList
+  if cs.length < 2 then none else
+  if cs.head? ≠ some '[' || cs.getLast? ≠ some ']' then none else
+  let inner := String.ofList ((cs.drop 1).dropLast)
+  if inner.isEmpty then some [] else (inner.splitOn ",").mapM parseHex?
+
+def six (eq ne lt gt le ge : Bool) : String :=
+  s!"eq={showB eq} ne={showB ne} lt={showB lt} gt={showB gt} le={showB le} ge={showB ge}"
+
+def showOpt : Option Int → String
+  | some v => toString v
+  | none => "unrep"
+
+def pairs {α} : List α → Option (List (α × α))
+  | [] => some []
+  | a :: b :: r => (pairs r).map ((a, b) :: ·)
+  | _ => none
+
+def defaultEps? : String → Style → Option Dy
+  | "f32", .relativeWeak => some Gen.defaultEps_relativeWeak_f32
+  | "f32", .relativeStrong => some Gen.defaultEps_relativeStrong_f32
+  | "f32", .absolute => some Gen.defaultEps_absolute_f32
+  | "f64", .relativeWeak => some Gen.defaultEps_relativeWeak_f64
+  | "f64", .relativeStrong => some Gen.defaultEps_relativeStrong_f64
+  | "f64", .absolute => some Gen.defaultEps_absolute_f64
+  | _, _ => none
+
+def mfFinite (c : Nat) : Bool := c < 256 && c / 8 % 16 != 15
+
+def handle (line : String) : String :=
+  match tokens line with
+  | ["cmp", t, st, a, b, e] =>
+    match parseFT? t, parseStyle? st, Dy.parse? a, Dy.parse? b, Dy.parse? e with
+    | some ft, some s, some a, some b, some e =>
+      if !(okVal ft a && okVal ft b && okEps ft e) then "skip" else
+      six (eqS s a b e) (neS s a b e) (ltS s a b e) (gtS s a b e) (leS s a b e) (geS s a b e)
+    | _, _, _, _, _ => "bad-op"
+  | ["cmpv", t, kind, st, a, b, e] =>
+    match parseFT? t, parseStyle? st, parseDyList? a, parseDyList? b, Dy.parse? e with
+    | some ft, some s, some a, some b, some e =>
+      if !(a.all (okVal ft) && b.all (okVal ft) && okEps ft e) then "skip" else
+      match kind with
+      | "std" => six (eqVec s a b e) (neVec s a b e) (ltVec s a b e) (gtVec s a b e) (leVec s a b e) (geVec s a b e)
+      | "fv" => if a.length != b.length || a.length == 0 || a.length > 4 then "bad-op" else
+                s!"eq={showB (eqFV s a b e)} ne={showB (neFV s a b e)}"
+      | _ => "bad-op"
+    | _, _, _, _, _ => "bad-op"
+  | [op, t, it, st, rs, v, e] =>
+    if op != "round" && op != "trunc" then "bad-op" else
+    match parseFT? t, parseIType? it, parseStyle? st, parseRStyle? rs, Dy.parse? v, Dy.parse? e with
+    | some ft, some ity, some s, some r, some v, some e =>
+      if !(okVal ft v && okEps ft e) then "skip" else
+      if !ity.signed && v < (0 : Dy) then "skip" else
+      if op == "round" then toString (round s r Dy.trunc v e) else toString (trunc s (!ity.signed) r Dy.trunc v e)
+    | _, _, _, _, _, _ => "bad-op"
+  | ["laws", t, st, _, _, _] =>
+    match parseFT? t, parseStyle? st with
+    | some _, some _ => "n/a"
+    | _, _ => "bad-op"
+  | ["mf", st, a, b, e] =>
+    match parseStyle? st, a.toNat?, b.toNat?, e.toNat? with
+    | some s, some a, some b, some e =>
+      if !(mfFinite a && mfFinite b && mfFinite e) || e ≥ 128 then "skip" else
+      let a := MF.decode a; let b := MF.decode b; let e := MF.decode e
+      six (eqS s a b e) (neS s a b e) (ltS s a b e) (gtS s a b e) (leS s a b e) (geS s a b e)
+    | _, _, _, _ => "bad-op"
+  | ["mfrow", st, a, e] =>
+    match parseStyle? st, a.toNat?, e.toNat? with
+    | some s, some a, some e =>
+      if !(mfFinite a && mfFinite e) || e ≥ 128 then "skip" else
+      let a := MF.decode a; let e := MF.decode e
+      let cell (i : Nat) : List Char :=
+        let b := MF.decode (if i < 120 then i else i + 8)
+        let bit (x : Bool) (k : Nat) : Nat := if x then 2 ^ k else 0
+        let byte := bit (eqS s a b e) 5 + bit (neS s a b e) 4 + bit (ltS s a b e) 3 + bit (gtS s a b e) 2
+                    + bit (leS s a b e) 1 + bit (geS s a b e) 0
+        [hexChar (byte / 16), hexChar (byte % 16)]
+      String.ofList ((List.range 240).flatMap cell)
+    | _, _, _ => "bad-op"
+  | ["static"] =>
+    s!"{showOpt (factorial int32 5)} {showOpt (binomial int32 10 5)} {showOpt (binomial int32 7 7)} {showOpt (binomial int32 (-1) (-1))} {showOpt (binomial int64 6 3)}"
+  | ["mfr", st, rs, v, e] =>
+    match parseStyle? st, parseRStyle? rs, v.toNat?, e.toNat? with
+    | some s, some r, some v, some e =>
+      if !(mfFinite v && mfFinite e) || e ≥ 128 then "skip" else
+      let v := MF.decode v; let e := MF.decode e
+      s!"round={round s r MF.trunc v e} trunc={trunc s false r MF.trunc v e}"
+    | _, _, _, _ => "bad-op"
+  | ["defeps", t, st] =>
+    match parseStyle? st with
+    | some s => match defaultEps? t s with
+      | some d => d.str
+      | none => "bad-op"
+    | none => "bad-op"
+  | ["pow", t, te, m, p] =>
+    match parseIType? t, parseIType? te, m.toInt?, p.toInt? with
+    | some t, some te, some m, some p =>
+      if !(t.fits m && te.fits p) then "bad-op" else
+      if p.natAbs > 4096 || (p < 0 && m == 0) then "skip" else showOpt (powerI t te m p)
+    | _, _, _, _ => "bad-op"
+  | ["powf", t, m, p] =>
+    match parseFT? t, Dy.parse? m, p.toInt? with
+    | some ft, some m, some p =>
+      let (mo, e) := m.normal
+      let ap := p.natAbs
+      if ap > 4096 then "skip" else
+      if !(Dy.bitlen mo.natAbs * ap ≤ ft.prec && e.natAbs * ap ≤ 100) then "skip" else
+      if p < 0 && mo.natAbs != 1 then "skip" else
+      (powerK m p).str
+    | _, _, _ => "bad-op"
+  | ["fact", t, n] =>
+    match parseIType? t, n.toInt? with
+    | some t, some n => if !(t.fits n) then "bad-op" else showOpt (factorial t n)
+    | _, _ => "bad-op"
+  | ["binom", t, n, k] =>
+    match parseIType? t, n.toInt?, k.toInt? with
+    | some t, some n, some k => if !(t.fits n && t.fits k) then "bad-op" else showOpt (binomial t n k)
+    | _, _, _ => "bad-op"
+  | ["sign", t, x] =>
+    match parseIType? t with
+    | some ty => match x.toInt? with
+      | some x => if !(ty.fits x) then "bad-op" else toString (signK x)
+      | none => "bad-op"
+    | none => match parseFT? t with
+      | some _ => if x == "nz" then toString (signK (0 : Dy)) else
+        match Dy.parse? x with
+        | some x =>
+          let (m, e) := x.normal
+          let top : Int := (Dy.bitlen m.natAbs : Int) + e
+          if m != 0 && (top < -100 || top > 100) then "bad-op" else toString (signK x)
+        | none => "bad-op"
+      | none => "bad-op"
+  | ["cls", kind, fmt, l] =>
+    let f? : Option (Nat → FpClass) := match fmt with
+      | "f32" => some (classify 8 23)
+      | "f64" => some (classify 11 52)
+      | _ => none
+    match f?, parseHexList? l with
+    | some f, some l =>
+      if l.any (fun b => b ≥ (if fmt == "f32" then 2 ^ 32 else 2 ^ 64)) then "bad-op" else
+      let cs := l.map f
+      let three (a b c : Bool) := s!"nan={showB a} inf={showB b} fin={showB c}"
+      match kind with
+      | "fv" => if cs.length == 0 || cs.length > 4 then "bad-op" else
+                three (isNaNV isNaN1 cs) (isInfV isInf1 cs) (isFiniteV isFinite1 cs)
+      | "cx" => match cs with
+                | [re, im] => three (isNaNC (re, im)) (isInfC (re, im)) (isFiniteC (re, im))
+                | _ => "bad-op"
+      | "fvcx" => match pairs cs with
+                | some ps => if ps.length == 0 || ps.length > 3 then "bad-op" else
+                             three (isNaNV isNaNC ps) (isInfV isInfC ps) (isFiniteV isFiniteC ps)
+                | none => "bad-op"
+      | "un" => match cs with
+                | [a, b] => s!"unordered={showB (isUnordered1 a b)}"
+                | _ => "bad-op"
+      | _ => "bad-op"
+    | _, _ => "bad-op"
+  | _ => "bad-op"
+
+def main : IO Unit := runDriver handle
